@@ -30,7 +30,7 @@ reg(
     "The three handlers run on random non-square smooth maps; backend.random.rademacher is interposed so the stochastic handlers "
     "receive every sign tensor exactly once: their estimate must then equal the exact trace/diagonal block to 1e-11 (exact "
     "unbiasedness, no Monte-Carlo tolerance). Logged sub-keys must be pairwise distinct and the carried key must change. A fixed "
-    "table of malformed inputs must raise. Exploration over shapes/points; exhaustive over probes for each case.",
+    "table of malformed inputs (wrong rank, containers, trailing dimensions that differ incl. broadcast-compatible 1-vs-d pairs) must raise. Exploration over shapes/points; exhaustive over probes for each case.",
     "Trusted: analytic Jacobian of the generated linear+sin+bilinear map; jax.random.split.",
 )
 reg(
